@@ -1,6 +1,6 @@
 (* C15 — CreateValidator validates like x/staking and forces PoA's fixed fields. *)
 From stdpp Require Import gmap.
-Require Import Model.Base Model.Validate Model.State Model.Staking Model.Slashing Model.Poa proofs.ValidateProofs.
+Require Import Model.Base Model.Validate Model.State Model.Staking Model.Slashing Model.Poa Model.App proofs.ValidateProofs proofs.InvHistory proofs.InvPools proofs.InvAccept.
 
 (* same verdict (acceptance, error, or crash on an absent decimal) as stakingtypes.MsgCreateValidator.Validate
    with any self-delegation value >= min-self-delegation >= 1 *)
@@ -16,3 +16,29 @@ Theorem C15_length_limits : forall d,
   ensure_length d = true <->
   dl_moniker d <= 70 /\ dl_identity d <= 3000 /\ dl_website d <= 140 /\ dl_security d <= 140 /\ dl_details d <= 280.
 Proof. exact ensure_length_spec. Qed.
+
+(* the handler as a whole, on any state whose bonded pool is reconciled (every reachable one, C11): an application is accepted
+   exactly when the message validates like x/staking's, the rate is at least the chain minimum, and neither the operator
+   nor the consensus key is used by a validator or by a pending application, and the description is within the limits *)
+Theorem C15_accepts_exactly_when : forall c val cons mon r mx ch,
+  bonded_pool (bk c) = bonded_tokens (stk c) ->
+  (exists c', msg_create_validator c val cons mon r mx ch = MOk c') <->
+  poa_create_validate (create_basic_of cons mon r mx ch) = VOk /\
+  default 0 (sp_min_commission (params (stk c))) <= r /\
+  vals (stk c) !! val = None /\ by_cons (stk c) !! cons = None /\
+  (forall q, In q (pending (poa c)) -> p_oper q <> val /\ p_cons q <> cons) /\
+  ensure_length (cb_desc (create_basic_of cons mon r mx ch)) = true.
+Proof. exact create_accept_iff. Qed.
+
+(* ... and acceptance appends exactly the submitted application and changes nothing else: no pool, no supply, no validator
+   (a pending entry has no token or minimum-self-delegation field; admission gives it zero tokens and minimum 1) *)
+Theorem C15_acceptance_only_appends : forall c val cons mon r mx ch c',
+  bonded_pool (bk c) = bonded_tokens (stk c) ->
+  msg_create_validator c val cons mon r mx ch = MOk c' ->
+  c' = set_pending c (pending (poa c) ++ [application val cons mon r mx ch]).
+Proof. exact create_accept_effect. Qed.
+
+(* the hypothesis holds in every reachable state *)
+Theorem C15_reconciled_in_every_reachable_state : forall g bs,
+  wf_genesis g -> let c := w_chain (run_world (init_world g) bs) in bonded_pool (bk c) = bonded_tokens (stk c).
+Proof. intros g bs Hg c. destruct (reachable_all g bs Hg) as (_ & _ & [H _]). exact H. Qed.
